@@ -54,6 +54,14 @@ BUILT = {
          "Exhaustive TLC model check over small trees, every read size and every independent write segmentation (Reconstructed, AnnouncedIsProduced, HeaderNeverInPayload, OneOpenFile, ShrinkIsError, WrittenIsPrefix); bound to the code by replaying thousands of exported cases and validating recorded runs of the real newArchiveReader -> archiveFileWriter.Write (driven by the real writeAll) on materialised trees, including 50/100/300-entry trees with descriptor counts from /proc/self/fd, unicode names, files of several read buffers, sources shrinking or growing between scan and read, and RLIMIT_NOFILE=64.",
          "Trusts TLC, /proc/self/fd accounting and SHA-256; the full protocol-4 transfer path is covered under C01 (archive mode) rather than here; the largest model config needs ~6M states (thorough).",
          "2/C15", "archive"),
+ "C08": ("TLA+ spec Resume.tla (append.go step by step: pipelined prefix hashes, acks, stopNow, Over, seek/truncate at matchStep, protocols 2/3/4) checked by TLC incl. liveness; exported relations (ResumeGen.tla) run as real transfers with the real 10 MiB block size and validated against ResumeTrace.tla",
+         "Exhaustive TLC model check over every relation between source and previous destination content for up to 3 blocks (absent, empty, every prefix, identical, longer, diverging at first/middle/last unit of every block) x protocols 2-4: FinalEqualsSrc, MatchIsProven, SkippedNeverExceedsProven, TailCut, KeptOnlyProven, OthersUntouched, NoStuck, Termination; bound to the code by materialising exported relations with the real 10 MiB comparison block (files of 0..30 MiB, differing at 10 MiB-1/10 MiB/10 MiB+1 and 20 MiB+-1), running real transfers in both directions, base64/binary, protocols 2-4, and validating the recorded HASH / ack / over / SIZE / payload events and the observed final state against the same actions.",
+         "Trusts TLC, the e2e harness and SHA-256; seek/truncate offsets are judged from outside (final bytes, announced remaining SIZE) because no hook sits in append.go.",
+         "2/C08", "resume"),
+ "C19": ("TLA+ spec Zmodem.tla (one action per critical section of zmodem.go and of the zmodem branches of filter.go; helper, timers and user as environment) checked by TLC incl. liveness; exported plans (ZmodemGen.tla) realised on a real filter with puppet rz/sz helpers and validated against ZmodemTrace.tla",
+         "Exhaustive TLC model check over helper behaviours (exits 0 / non-zero / immediately, silent, late output, cannot start), server behaviours (finishes, cancels before/after the helper, keeps sending, goes quiet), Ctrl-C anywhere, upload and download: VetoedHeaderStartsNothing, CancelSentToWaiter, SwallowOnlyWhileActive, InputFlowsAfter, NotStuck at quiescence, HandBack under fair timers; bound to the code by realising sampled plans on a real NewTrzszFilter{EnableZmodem} with commanded fake rz/sz processes (and without them on PATH), bracketing every server chunk and typed input with begin/end events whose observed disposition must equal the spec's, and probing the hand-back after the code's own quiet period plus slack.",
+         "Trusts TLC, the puppet helpers and timing slack (0.5 s quiet + 2 s; 20 s timers + 2 s); one session per run; the start header arrives within one read; two genuine defects found were fixed in /repo.",
+         "2/C19", "zmodem"),
 }
 checks = []
 for p in props:
